@@ -108,6 +108,8 @@ def den(prog):
                     regs.append(chk(pmul(a[0], a[1])))
                 elif p == "neg":
                     regs.append(pmul(pconst(-1), a[0]))
+                elif p == "take":
+                    regs.append(a[0])
                 elif p == "nd":
                     v = peval(a[0], vals)
                     if abs(v) > LIMIT:
@@ -205,10 +207,10 @@ class Gen:
             budget[0] -= 1
             roll = rng.random()
             if roll < 0.5 or fr[-1] == 0:
-                p = rng.choice(["mul", "mul", "add", "add", "neg", "nd"])
+                p = rng.choice(["mul", "mul", "add", "add", "neg", "nd", "take"])
                 if fr[-1] == 0 and len(fr) == 1:
                     p = "add"
-                a = [self.pick_ref(fr)] if p in ("neg", "nd") else [self.pick_ref(fr), self.pick_ref(fr)]
+                a = [self.pick_ref(fr)] if p in ("neg", "nd", "take") else [self.pick_ref(fr), self.pick_ref(fr)]
                 ins.append({"op": "prim", "p": p, "a": a})
             elif roll < 0.75 and depth < self.max_depth:
                 at = self.pick_ref(fr) if rng.random() < 0.8 else K(rng.choice([2, 3]))
